@@ -121,6 +121,12 @@ class VNet:
         self.log.append((now, fate, src, dst, data))
         if fate == "drop":
             return
+        if fate == "error":
+            # the OS refused the send: asyncio reports it to the protocol and keeps the endpoint open
+            for tr in self.transports:
+                if tr.addr == src and not tr.closed:
+                    self.loop.call_soon(tr.protocol.error_received, OSError(101, "Network is unreachable (injected)"))
+            return
         delays = [self.latency + base_delay]
         if fate == "dup":
             delays.append(self.latency + base_delay)
